@@ -218,18 +218,20 @@ def build(cfg, ev):
     def short(request, kind='short'):
         if kind == 'shortall':
             return pjrpc.Response(id=request.id, result='mw_short')
+        if kind == 'drop':
+            return UNSET
         return UNSET if request.id is None else pjrpc.Response(id=request.id, result='mw_short')
 
     def make_mw(k, kind):
         if is_async:
             async def mw(request, context, handler):
                 r2 = mw_pre(k, kind, request)
-                resp = short(request, kind) if kind in ('short', 'shortall') else await handler(r2, context)
+                resp = short(request, kind) if kind in ('short', 'shortall', 'drop') else await handler(r2, context)
                 return mw_post(k, kind, request, resp)
         else:
             def mw(request, context, handler):
                 r2 = mw_pre(k, kind, request)
-                resp = short(request, kind) if kind in ('short', 'shortall') else handler(r2, context)
+                resp = short(request, kind) if kind in ('short', 'shortall', 'drop') else handler(r2, context)
                 return mw_post(k, kind, request, resp)
         return mw
 
